@@ -192,7 +192,7 @@ func (data SellAllSwapPoolDataV260) Run(tx *Transaction, context state.Interface
 			if isGasCommissionFromPoolSwap == true && swapper.GetID() == commissionPoolSwapper.GetID() {
 				commissionInBaseCoin, _ = commissionPoolSwapper.CalculateBuyForSellWithOrders(commission)
 				if tx.CommissionCoin() == coinToSell && coinToBuy.IsBaseCoin() {
-					swapper = swapper.AddLastSwapStepWithOrders(commission, commissionInBaseCoin, true)
+					swapper = swapper.AddLastSwapStepWithOrders(commission, commissionInBaseCoin, false)
 				}
 				if tx.CommissionCoin() == coinToBuy && coinToSell.IsBaseCoin() {
 					swapper = swapper.AddLastSwapStepWithOrders(big.NewInt(0).Neg(commissionInBaseCoin), big.NewInt(0).Neg(commission), true)
